@@ -86,6 +86,10 @@ type EapAkaPrime struct {
 	subType    EapAkaSubtype
 	reserved   uint16
 	attributes map[EapAkaPrimeAttrType]*EapAkaPrimeAttr
+
+	// Attribute order of a decoded packet: a received packet is re-encoded (and its
+	// AT_MAC is calculated) with the attributes in the order the sender used
+	attrOrder []EapAkaPrimeAttrType
 }
 
 func NewEapAkaPrime(subType EapAkaSubtype) *EapAkaPrime {
@@ -383,6 +387,9 @@ func (eapAkaPrime *EapAkaPrime) Unmarshal(rawData []byte) error {
 		}
 
 		// Set attribute
+		if _, exists := eapAkaPrime.attributes[attr.attrType]; !exists {
+			eapAkaPrime.attrOrder = append(eapAkaPrime.attrOrder, attr.attrType)
+		}
 		eapAkaPrime.attributes[attr.attrType] = attr
 	}
 
@@ -397,15 +404,28 @@ func (eapAkaPrime *EapAkaPrime) initMAC() error {
 func (eapAkaPrime *EapAkaPrime) getAttrsKeys() []EapAkaPrimeAttrType {
 	result := make([]EapAkaPrimeAttrType, 0, len(eapAkaPrime.attributes))
 
-	for key := range eapAkaPrime.attributes {
-		result = append(result, key)
+	// Attributes of a decoded packet keep the order in which they were received
+	received := make(map[EapAkaPrimeAttrType]bool, len(eapAkaPrime.attrOrder))
+	for _, key := range eapAkaPrime.attrOrder {
+		if _, ok := eapAkaPrime.attributes[key]; ok && !received[key] {
+			received[key] = true
+			result = append(result, key)
+		}
 	}
 
-	sort.Slice(result, func(i, j int) bool {
-		return uint8(result[i]) < uint8(result[j])
+	// Attributes set through the API follow in ascending type order
+	added := make([]EapAkaPrimeAttrType, 0, len(eapAkaPrime.attributes))
+	for key := range eapAkaPrime.attributes {
+		if !received[key] {
+			added = append(added, key)
+		}
+	}
+
+	sort.Slice(added, func(i, j int) bool {
+		return uint8(added[i]) < uint8(added[j])
 	})
 
-	return result
+	return append(result, added...)
 }
 
 // Len(EapAkaPrimeAttr) = EapAkaPrimeAttr.length * 4
